@@ -1410,6 +1410,15 @@ func genC19(tier string, rng *Rng) {
 		}
 		g.add(&scenario{Bin: bin, Init: g.stdInit(bin, 0), Binds: binds, Items: items, Segs: dribble, Gap: 1})
 		// long stream, random cuts; large payloads
+		// initialisation with a topology SVG / JSON line beyond 64 KiB (and beyond 256 KiB): Connect must
+		// still succeed and the getters must return it (a line reader with a fixed token limit gives up)
+		for _, reps := range []int{16500, 70000} {
+			huge := []*rwp.OutboundMessage{
+				{PanelInfo: &rwp.PanelInfo{Model: "SK_BIG", Serial: "SN77", Name: "Big"}},
+				{PanelTopology: &rwp.PanelTopology{Json: sampleJSON[0], Svgbase: "<svg>" + strings.Repeat("<g/>", reps) + "</svg>"}},
+			}
+			g.add(&scenario{Bin: bin, Init: initSpec{Pre: g.msgItems(bin, huge...)}, Binds: binds, Items: items})
+		}
 		big := &rwp.OutboundMessage{PanelTopology: &rwp.PanelTopology{Svgbase: strings.Repeat("<g/>", 1500)}}
 		long := g.msgItems(bin, append(append([]*rwp.OutboundMessage{}, ms...), big, ms[0], ms[3])...)
 		for k := 0; k < 4; k++ {
@@ -1484,6 +1493,19 @@ func genC19(tier string, rng *Rng) {
 		for k := 1; k < len(victim); k++ {
 			its := append([]item{items[0]}, item{K: "trunc", Data: victim[:k]})
 			g.add(&scenario{Bin: bin, Init: g.stdInit(bin, 0), Binds: binds, Items: its})
+		}
+		// every LATER item cut short too, in particular right before its terminator: an ASCII line whose
+		// text is complete but whose line feed never comes (HWC#2=Abs:5 + close) is a broken frame, not an
+		// event (seed C19-7: bufio.Scanner hands the unterminated rest to the dispatcher at EOF)
+		for j := 2; j < len(items); j++ {
+			w := items[j].wire()
+			for k := 1; k < len(w); k++ {
+				if !thorough && k > 2 && k < len(w)-2 {
+					continue
+				}
+				its := append(append([]item{}, items[:j]...), item{K: "trunc", Data: w[:k]})
+				g.add(&scenario{Bin: bin, Init: g.stdInit(bin, 0), Binds: binds, Items: its})
+			}
 		}
 		// a 2.3 s pause inside a frame: breaks it iff the header is complete and the payload is not (binary);
 		// harmless in ASCII mode and inside the header
